@@ -170,6 +170,10 @@ structure Times where
 def Times.ofLists (l : List (List Int)) : Times :=
   { npts := fun m => (l.getD m []).length, tv := fun m k => (l.getD m []).getD k 0 }
 
+/-- Same as `ofLists` with O(1) access (driver). -/
+def Times.ofArrays (a : Array (Array Int)) : Times :=
+  { npts := fun m => (a.getD m #[]).size, tv := fun m k => (a.getD m #[]).getD k 0 }
+
 def block (T : Times) (f : Func) : List Entry :=
   (List.range (T.npts f.owner)).map (fun k => ⟨T.tv f.owner k, f.order, f.owner, f.finish, k, f.row⟩)
 
@@ -199,22 +203,33 @@ def IsPlan (T : Times) (fl : List Func) (p : List Entry) : Prop :=
 
 /-! ### Execution -/
 
-def bump (clk : Nat → Nat) (e : Entry) : Nat → Nat :=
-  fun m => if e.finish && m == e.owner then clk m + 1 else clk m
+/-- Per-owner clocks (`owner.t.ti`): a list indexed by owner, missing entries are 0. -/
+abbrev Clocks := List Nat
+
+def getClk (c : Clocks) (m : Nat) : Nat := c.getD m 0
+
+/-- `self.t.ti += 1` of owner `m`. -/
+def incr : Clocks → Nat → Clocks
+  | [], 0 => [1]
+  | [], m + 1 => 0 :: incr [] m
+  | x :: r, 0 => (x + 1) :: r
+  | x :: r, m + 1 => x :: incr r m
+
+def bump (clk : Clocks) (e : Entry) : Clocks := if e.finish then incr clk e.owner else clk
 
 /-- Execute the plan; record, for every entry, the owner's clock at the invocation. -/
-def trace (clk : Nat → Nat) : List Entry → List (Entry × Nat)
+def trace (clk : Clocks) : List Entry → List (Entry × Nat)
   | [] => []
-  | e :: r => (e, clk e.owner) :: trace (bump clk e) r
+  | e :: r => (e, getClk clk e.owner) :: trace (bump clk e) r
 
 /-- The clocks after executing the plan. -/
-def finalClocks (clk : Nat → Nat) : List Entry → (Nat → Nat)
+def finalClocks (clk : Clocks) : List Entry → Clocks
   | [] => clk
   | e :: r => finalClocks (bump clk e) r
 
-/-- `Sim.run` after completion: `self.t.ti -= 1` and `mod.t.ti -= 1` for every module (Python ints: may go to -1
-    only for an owner that never finished a step, which has `npts = 0`; clocks are kept in `Int` here). -/
-def afterRun (clk : Nat → Nat) : Nat → Int := fun m => (clk m : Int) - 1
+/-- `Sim.run` after completion: `self.t.ti -= 1` and `mod.t.ti -= 1` for every module (Python ints: −1 only for an
+    owner that never finished a step, i.e. with `npts = 0`; kept in `Int` here). -/
+def afterRun (clk : Clocks) : Nat → Int := fun m => (getClk clk m : Int) - 1
 
 /-! ### Hypotheses of the theorems (all decidable on concrete inputs) -/
 
@@ -242,6 +257,16 @@ def allTimes (T : Times) (owners : List Nat) : List Int :=
 def separatedB (T : Times) (fl : List Func) (n : Nat) : Bool :=
   let ts := allTimes T (fl.map (·.owner)).eraseDups
   ts.all (fun a => ts.all (fun b => !(decide (a < b)) || decide (a + (n : Int) ≤ b)))
+
+/-- `a = b ∨ a + n ≤ b` for neighbours. -/
+def gapsOK (n : Nat) : List Int → Bool
+  | [] => true
+  | [_] => true
+  | a :: b :: r => (decide (a = b) || decide (a + (n : Int) ≤ b)) && gapsOK n (b :: r)
+
+/-- Fast executable `Separated` (driver): sort all time values, check neighbours (`separatedFast_sound`). -/
+def separatedFast (T : Times) (fl : List Func) (n : Nat) : Bool :=
+  gapsOK n ((allTimes T (fl.map (·.owner)).eraseDups).mergeSort (fun a b => decide (a ≤ b)))
 
 def strictMonoB (T : Times) (owners : List Nat) : Bool :=
   owners.all (fun m => (List.range (T.npts m)).all (fun j => j == 0 || decide (T.tv m (j - 1) < T.tv m j)))
